@@ -102,9 +102,16 @@ class _Seen(object):
     last = None
 
 
-def _cbs_post(self, combos, cases, result):
-    """Postcondition of Crop.choose_batch_settings: batchsize * num_batches (+ remainder) covers exactly n."""
+def _cbs_had(self):
+    return (self.batchsize is not None) and (self.num_batches is not None)
+
+
+def _cbs_post(self, combos, cases, result, OLD):
+    """Postcondition of Crop.choose_batch_settings: batchsize * num_batches (+ remainder) covers exactly n.
+    (When both numbers were already known - a re-sow - nothing is chosen; the re-sow cases judge the partition itself.)"""
     contracts._bump("choose_batch_settings")
+    if OLD.had:
+        return True
     n = (len(cases) if cases else 1)
     if combos:
         for _, v in combos:
@@ -126,7 +133,8 @@ def _cbs_post(self, combos, cases, result):
 def setup(ctx):
     from xyzpy.gen import cropping
     if not getattr(cropping.Crop.choose_batch_settings, "__vf_contract__", False):
-        w = icontract.ensure(_cbs_post, error=contracts.ContractBroken)(cropping.Crop.choose_batch_settings)
+        w = icontract.snapshot(_cbs_had, name="had")(
+            icontract.ensure(_cbs_post, error=contracts.ContractBroken)(cropping.Crop.choose_batch_settings))
         w.__vf_contract__ = True
         cropping.Crop.choose_batch_settings = w
 
